@@ -432,6 +432,18 @@ fn check_case(ctx: &Ctx, scratch: &Path, case: &CaseSpec, out: &mut Partial) {
     let kind = case.op.kind();
     let rec = match record_case(ctx, &case_dir, case, false) {
         Ok(r) => r,
+        Err(e) if after_crash && !e.contains("the operation has only") && !e.starts_with("create") && !e.starts_with("copy") => {
+            // the history holds an interrupted step: what fails (or panics) now runs on the restart image of that
+            // stop, and "the store works again after a restart" is what the property promises
+            out.count("cases", 1);
+            out.count("cases_after_an_interrupted_history_step", 1);
+            let sig = format!("C19/operation-fails-after-restart:{kind}");
+            let mut rp = case.to_json();
+            rp["failure"] = json!(e);
+            out.violation(&sig, format!("{}: after the interrupted history step the restarted store does not work: {e}", case.label()), rp);
+            rm_tree(&case_dir);
+            return;
+        },
         Err(e) => {
             // not a crash-consistency question: the uncrashed run must work for the lab to explore
             out.count("machinery:uncrashed_run_failed", 1);
